@@ -122,6 +122,16 @@ def stepVd (ss : VSlots) (args : List String) : VSlots × String :=
           match pairs vals with
           | some vs => if vs.length == s.ports then upd (s.setZ0Vector cfg vs) else (ss, "bad-op")
           | none => (ss, "bad-args")
+        | "set_z0_vector_own", _, [some g] =>     -- the object's own row g handed to the setter
+          if ¬ inRange g s.freqs then (ss, "bad-op") else
+          match s.getFz0Vector g with
+          | .ok vs => upd (s.setZ0Vector cfg vs)
+          | _ => (ss, "bad-op")
+        | "set_fz0_vector_own", _, [some f, some g] =>
+          if g < -1 ∨ g ≥ s.freqs ∨ (g = -1 ∧ s.perF) then (ss, "bad-op") else
+          match (if g = -1 then s.getZ0Vector else s.getFz0Vector g) with
+          | .ok vs => upd (s.setFz0Vector cfg f vs)
+          | _ => (ss, "bad-op")
         | "has_fz0", [], _ => (ss, "ok cb=0/0 " ++ (if s.perF then "1" else "0"))
         | "get_fz0", _, [some f, some p] => (ss, resLine (s.getFz0 f p) fun x => " " ++ x)
         | "set_fz0", [f, p, re, im], _ =>
